@@ -585,7 +585,8 @@ SubprocessResult run_process(const vector<string>& cmd, const string* stdin_data
   }
   ret.elapsed_time = now() - ret.elapsed_time;
 
-  // Read any leftover data after termination
+  // Read any leftover data after termination, and close the pipe ends that
+  // the loop above did not get to close
   for (auto& it : read_fd_to_buffer) {
     for (;;) {
       size_t read_offset = it.second->size();
@@ -604,6 +605,10 @@ SubprocessResult run_process(const vector<string>& cmd, const string* stdin_data
         break;
       }
     }
+    close(it.first);
+  }
+  for (const auto& it : write_fd_to_buffer) {
+    close(it.first);
   }
 
   if (check && sp.wait()) {
